@@ -76,6 +76,7 @@ func main() {
 		for i := 0; i < rep && r.Violations() == 0; i++ {
 			run.hierarchy(c.Hier, c.Case)
 		}
+		r.Sample(map[string]any{"replayed": map[string]any{"hier": c.Hier, "case": c.Case, "kind": c.Kind, "role": c.Role, "phase": c.Phase, "query": c.Query}, "repeats": rep})
 		sweep()
 		r.Finish(rule)
 		return
@@ -167,14 +168,14 @@ func main() {
 	r.Require("unusable_only_ds_truth_no_ad", 10)
 	r.Require("directed_cases_observed/mixedds", 30)
 	r.Require("directed_reply_servfail/mixedds", 30)
-	r.Require("directed_cases_observed/window", 48)
+	r.Require("directed_cases_observed/window", 40)
 	r.Require("directed_cases_observed/regress", 8)
 	// trust anchors lost in the middle of a history
 	r.Require("anchor_loss/outages", 2)
 	r.Require("anchor_loss/outage_replies_judged", 30)
 	r.Require("anchor_loss/outage_servfail", 20)
 	r.Require("anchor_loss/outage_replies/positive@warm", 6)
-	r.Require("anchor_loss/outage_replies/negative@warm", 6)
+	r.Require("anchor_loss/outage_replies/negative@warm", 4)
 	r.Require("anchor_loss/outage_replies/wildcard@warm", 2)
 	r.Require("anchor_loss/outage_replies/positive@cold", 4)
 	r.Require("anchor_loss/recovery_truth_ad", 4)
